@@ -1,6 +1,6 @@
 """C08 - cw1-subkeys: a subkey never spends beyond its unexpired native allowance."""
 from ..engine import show, OPTION
-from ..idioms import dispatch, entry_points, update_base, loaded_from, walk, stored_entry
+from ..idioms import dispatch, entry_points, update_base, loaded_from, walk, stored_entry, field_of
 from ..prims import is_rmw, is_rmw_in_place
 from .listing import extract
 from .cw1common import SENDER, BLOCK, items, admin_cond, NB_SUB, NB_SUB_SAT, IS_EXPIRED
@@ -158,24 +158,34 @@ def check_increase(p, i, e):
     return None
 
 
-def check_decrease(p, i, e, rem):
+def entry_view(e, old):
+    """(balance, expires) of the value written, whether it is the stored entry with fields assigned or an entry built anew
+    (struct literal naming every field); None when it is neither"""
     base, fields = update_base(e.value)
+    if base == old:
+        return field_of(e.value, "balance"), field_of(e.value, "expires")
+    if base[0] == "struct" and {"balance", "expires"} <= set(n for n, _ in base[2]):
+        return field_of(e.value, "balance"), field_of(e.value, "expires")
+    return None
+
+
+def check_decrease(p, i, e, rem):
     old, present = stored_entry(e, p)
-    if base != old:
+    view = entry_view(e, old)
+    if view is None:
         return "decrease stores a value not derived from the stored entry"
+    b, ne = view
     if not present:
         return "decrease succeeds without a stored allowance"
     exp = ("field", old, "expires")
     if not any(c[0][0] == "call" and c[0][1] == IS_EXPIRED and c[0][2] == (exp, BLOCK) and c[1] is False for c in p.conds):
         return "decrease succeeds on an expired allowance"
-    b = fields.get("balance")
     amount = ("vfield", ("param", "msg"), "DecreaseAllowance", "amount")
     if not (b and b[0] == "vfield" and b[2] == "Ok" and b[1][0] == "call" and b[1][1] == NB_SUB_SAT):
         return "balance not lowered with sub_saturating: %s" % show(b)[:200]
     if b[1][2] != (("field", old, "balance"), amount):
         return "sub_saturating operands are not (stored balance, message amount)"
-    if "expires" in fields:
-        ne = fields["expires"]
+    if ne != exp:
         if not any(c[0][0] == "call" and c[0][1] == IS_EXPIRED and c[0][2] == (ne, BLOCK) and c[1] is False for c in p.conds):
             return "new expiry stored without is_expired(new, env.block) = false"
     # removal iff empty
